@@ -100,7 +100,7 @@ def run(tier):
     V = Verdict(PROP, tier)
     V.rule = ("publication calendars (business days, holidays, gaps of 1-11 days, year boundaries, malformed observations, the 2017 series overlap) served as "
               "Bank-of-Canada JSON per series by a fake requester, so the real URL choice, JSON parser and RateLoader run; 'today' set through the public test "
-              "override; every look-up uses a fresh loader and cache. Exhaustive family: gap length 0-9 x look-up date Dec 25..Jan 10 x 4 year kinds. "
+              "override; every look-up uses a fresh loader and cache, and the same look-ups are repeated inside one run in ascending date order. Exhaustive family: gap length 0-9 x look-up date Dec 25..Jan 10 x 4 year kinds. "
               "Application rows: USD amounts and commissions without a rate, explicit rates, CAD with a rate, other currencies. non-trivial = look-up "
               "answered from a preceding day, or with an error, or across 1 January")
     cases = []
@@ -127,13 +127,27 @@ def run(tier):
         runs = [{"today": today.isoformat(), "remote": remote_spec(vis, overlap), "lookups": [d.isoformat()]} for d in dates]
         cases.append({"id": cid, "cache": "none", "runs": runs})
         plan[cid] = [("calendar #%d" % i, vis, d, today) for d in dates]
+        # (C) the same look-ups inside ONE run of one loader, in ascending date order (as acb processes a file): what an
+        # earlier look-up resolved to must not change what a later one returns (long gaps make the 7-day limit bite)
+        sdates = sorted(set(dates))
+        cid2 = "seq%05d" % i
+        cases.append({"id": cid2, "cache": "none", "runs": [{"today": today.isoformat(), "remote": remote_spec(vis, overlap),
+                                                             "lookups": [d.isoformat() for d in sdates]}]})
+        plan[cid2] = [("calendar #%d, one run, ascending" % i, vis, d, today) for d in sdates]
     res = common.run_harness("rates", cases, tag="c12")
     for c in cases:
         r = res.get(c["id"], {})
         if "runs" not in r:
             V.unjudged += 1
             continue
-        for (name, vis, d, today), run_ in zip(plan[c["id"]], r["runs"]):
+        if c["id"].startswith("seq"):
+            # one run, many look-ups: pair each planned look-up with its answer
+            lks = r["runs"][0]["lookups"] if r["runs"] else []
+            pairs = [(pl, {"lookups": [lk]}) for pl, lk in zip(plan[c["id"]], lks)]
+            V.bump("in_run_sequence_lookups", len(pairs))
+        else:
+            pairs = list(zip(plan[c["id"]], r["runs"]))
+        for (name, vis, d, today), run_ in pairs:
             V.count()
             if not run_["lookups"]:
                 V.unjudged += 1
@@ -150,7 +164,8 @@ def run(tier):
                 V.bump("expected_errors")
             if f:
                 V.violation("%s [%s]" % (json.dumps(f)[:500], name),
-                            {"kind": "lookup", "prop": PROP, "case": {"id": "r", "cache": "none", "runs": [c["runs"][plan[c["id"]].index((name, vis, d, today))]]},
+                            {"kind": "lookup", "prop": PROP,
+                             "case": {"id": "r", "cache": "none", "runs": [c["runs"][0] if c["id"].startswith("seq") else c["runs"][plan[c["id"]].index((name, vis, d, today))]]},
                              "published": {k.isoformat(): list(v) for k, v in vis.published.items() if abs((k - d).days) < 15},
                              "date": d.isoformat(), "today": today.isoformat()},
                             {"what": f["what"]})
